@@ -83,9 +83,10 @@ class Ctx:
                     self.known_hits.append(dict(id=k["id"], key=key, message=message))
                     print(f"KNOWN-FINDING: property={self.pid} {k['id']}: {k['what']}", flush=True)
                 return False
-        os.makedirs(os.path.join(VERIF, "replays"), exist_ok=True)
+        rdir = os.environ.get("VERIF_REPLAY_DIR", os.path.join(VERIF, "replays"))
+        os.makedirs(rdir, exist_ok=True)
         n = len(self.violations)
-        path = os.path.join(VERIF, "replays", f"{self.pid}-{n:03d}.json")
+        path = os.path.join(rdir, f"{self.pid}-{n:03d}.json")
         with open(path, "w") as fh:
             json.dump(dict(property=self.pid, key=key, message=message, replay=replay, seed=self.seed,
                            tier=self.tier), fh, indent=1, default=str)
@@ -119,8 +120,11 @@ class Ctx:
         ev = dict(property_id=self.pid, tier=self.tier, seed=int(self.seed), level=self.level, coverage=cov,
                   assumptions=self.assumptions, wall_s=round(time.time() - self.t0, 2),
                   violations=len(self.violations))
-        os.makedirs(os.path.join(VERIF, "evidence"), exist_ok=True)
-        with open(os.path.join(VERIF, "evidence", f"{self.pid}.json"), "w") as fh:
+        # (VERIF_EVIDENCE_DIR / VERIF_REPLAY_DIR: used only when the checks are tried against seeded changes, so that
+        # the committed evidence of the unchanged tree is not overwritten)
+        edir = os.environ.get("VERIF_EVIDENCE_DIR", os.path.join(VERIF, "evidence"))
+        os.makedirs(edir, exist_ok=True)
+        with open(os.path.join(edir, f"{self.pid}.json"), "w") as fh:
             json.dump(ev, fh, indent=1, default=str)
         return 1 if self.violations else 0
 
